@@ -152,10 +152,14 @@ class InstrumentMachine(Machine):
         ops = []
         for _ in range(rng.randint(3, 30)):
             u = rng.random()
-            if u < 0.40:
+            if u < 0.39:
                 a = rng.choice(focus)
                 ops.append({"op": "set", "attr": a, "value": self._value(rng, kind, a, cfg),
                             "as": rng.choice(["plain", "plain", "plain", "numpy", "tuple", "generator", "int", "float32"])})
+            elif u < 0.43 and kind != "polychromator":
+                a = rng.choice([x for x in attrs if x not in ("diffraction_order", "min_bins_per_pixel", "name")])
+                ops.append({"op": "set.nudge", "attr": a, "rel": rng.choice([-1, 1]) * rng.choice([1e-7, 1e-6, 4e-6, 2e-5]),
+                            "n": rng.choice([1, 1, 2, 7, 40])})
             elif u < 0.48:
                 a = rng.choice(focus)
                 v = self._invalid(rng, kind, a)
@@ -181,7 +185,18 @@ class InstrumentMachine(Machine):
                 ops.append({"op": "calibrate", "lo_off": round(rng.choice([0.0, 0.0, 1e-3, 0.7, 13.0]), 4) * (1 if cover else -1),
                             "hi_off": round(rng.choice([0.0, 0.0, 2e-3, 0.9, 11.0]), 4) * (1 if cover or rng.random() < 0.5 else -1),
                             "bins": bins, "vseed": rng.randrange(1 << 30),
-                            "shape": rng.choice(["noise", "flat", "ramp", "spike"])})
+                            "shape": rng.choice(["noise", "flat", "ramp", "spike", "ints"])})
+                if rng.random() < 0.5:
+                    # round 8: straight away a second spectrum with the same binning and the same total (a spike elsewhere, the
+                    # same numbers in another order), half of the time written into the very Spectrum object used before
+                    o = dict(ops[-1], vseed=rng.randrange(1 << 30), shape=rng.choice(["spike", "ints", ops[-1]["shape"]]))
+                    o["reverse"] = o["shape"] == ops[-1]["shape"] and o["shape"] != "spike"
+                    if o["reverse"]:
+                        o["vseed"] = ops[-1]["vseed"]
+                    o["reuse"] = rng.random() < 0.5
+                    if ops[-1]["shape"] == "ints" and o["shape"] == "ints" and not o["reverse"]:
+                        o["perm_of"] = ops[-1]["vseed"]
+                    ops.append(o)
         return {"config": cfg, "ops": ops}
 
     def _value(self, rng, kind, a, cfg):
@@ -400,6 +415,25 @@ class InstrumentMachine(Machine):
     def step(self, c, op, env):
         k = op["op"]
         out = "ok"
+        if k == "set.nudge":
+            # round 8: a correction far smaller than anything a "did the value change?" test with a tolerance would notice,
+            # possibly many in a row (a fine scan); each one is an ordinary assignment of the attribute's current value * (1 + rel)
+            a = op["attr"]
+            if a not in c.spec:
+                return "noop"
+            for _ in range(op["n"]):
+                cur = c.spec[a]
+                if isinstance(cur, float):
+                    v = cur * (1.0 + op["rel"])
+                elif a == "wavelength_to_pixel":
+                    v = [[x * (1.0 + op["rel"]) for x in e] for e in cur]
+                elif a == "accommodated_spectra":
+                    v = [[p[0] * (1.0 + op["rel"]), p[1]] for p in cur]
+                else:
+                    return "noop"
+                out = self.step(c, {"op": "set", "attr": a, "value": v, "as": "plain"}, env)
+            env.probe("nudged")
+            return out
         if k == "set":
             a = op["attr"]
             if a not in c.spec:
@@ -557,9 +591,12 @@ class InstrumentMachine(Machine):
         env.state("%s|w%d|s%d" % (c.kind, len(c.warm), len(c.stale_risk)), k + ":" + op.get("attr", ""))
         return out
 
-    def _spectrum(self, op, lo, hi):
+    def _spectrum(self, op, lo, hi, reuse=None):
         bins = op["bins"]
-        s = Spectrum(lo, hi, bins)
+        if reuse is not None and (reuse.min_wavelength, reuse.max_wavelength, reuse.bins) == (lo, hi, bins):
+            s = reuse                        # the caller refills the Spectrum object of the previous calibration in place
+        else:
+            s = Spectrum(lo, hi, bins)
         rs = np.random.RandomState(op["vseed"])
         if op["shape"] == "noise":
             s.samples[:] = rs.uniform(0, 10, bins)
@@ -567,9 +604,17 @@ class InstrumentMachine(Machine):
             s.samples[:] = 3.25
         elif op["shape"] == "ramp":
             s.samples[:] = np.linspace(0.0, 7.0, bins)
+        elif op["shape"] == "ints":
+            # integer-valued samples: any re-ordering has exactly the same sum
+            if op.get("perm_of") is not None:
+                s.samples[:] = rs.permutation(np.random.RandomState(op["perm_of"]).randint(0, 12, bins).astype(float))
+            else:
+                s.samples[:] = rs.randint(0, 12, bins).astype(float)
         else:
             s.samples[:] = 0.0
             s.samples[rs.randint(bins)] = 100.0
+        if op.get("reverse"):
+            s.samples[:] = np.array(s.samples)[::-1]
         return s
 
     def _calibrate(self, c, op, env):
@@ -586,7 +631,10 @@ class InstrumentMachine(Machine):
         if not (0 < slo < shi):
             return "noop"
         covers = slo <= lo and shi >= hi
-        sp = self._spectrum(op, slo, shi)
+        sp = self._spectrum(op, slo, shi, getattr(c, "last_source", None) if op.get("reuse") else None)
+        if sp is getattr(c, "last_source", None):
+            env.probe("calibrate_source_refilled_in_place")
+        c.last_source = sp
         try:
             res = c.obj.calibrate(sp)
         except Exception as e:
